@@ -371,10 +371,17 @@ def task_wide(t):
     _, si, ns, focus = t
     rep = run.Report()
     rec = _Rec(rep)
-    nvars = 8
-    bdd, decl = sweep.wide_manager(nvars, env.SEED)
-    subs = sweep.wide_subsets(nvars, 2)
-    pairs = [(a, b) for a in subs for b in subs]
+    if t[0] == 'xwide':
+        # very wide manager: supports of five levels out of 40, some of them >= 32
+        nvars = sweep.XWIDE
+        bdd, decl = sweep.wide_manager(nvars, env.SEED)
+        subs = sweep.wide_subsets(nvars, 5)
+        pairs = [(a, subs[(37 * i + 11) % len(subs)]) for i, a in enumerate(subs)]
+    else:
+        nvars = 8
+        bdd, decl = sweep.wide_manager(nvars, env.SEED)
+        subs = sweep.wide_subsets(nvars, 2)
+        pairs = [(a, b) for a in subs for b in subs]
     mine = sweep.shard(pairs, ns)[si]
     for k, (A, B) in enumerate(mine):
         if focus is not None and sweep.norm([A, B]) != sweep.norm(focus):
@@ -385,8 +392,8 @@ def task_wide(t):
         model = _model(U)
         one = [(syms[k % len(syms)], model[g]) for g, syms in BINARY.items()]
         b = sweep.Builder(bdd, U)
-        fa_ = U.all_functions(na)
-        fb_ = U.all_functions(nb)
+        fa_ = sweep.wide_functions(U, na)
+        fb_ = sweep.wide_functions(U, nb)
         F = U.full
         case = dict(kind='wide', task=t[:-1] + ([list(A), list(B)],), A=list(A), B=list(B))
         try:
@@ -419,7 +426,7 @@ def task_wide(t):
 
 
 TASKS = dict(pairs=task_pairs, ite=task_ite, sparse=task_sparse, autoref=task_autoref,
-             n4=task_n4, wide=task_wide)
+             n4=task_n4, wide=task_wide, xwide=task_wide)
 
 
 def _dispatch(t):
@@ -428,6 +435,7 @@ def _dispatch(t):
 
 def plan(tier):
     ts = [('wide', si, 16, None) for si in range(16)]
+    ts += [('xwide', si, 16, None) for si in range(16)]
     n = 3
     no = 6
     if tier == 'quick':
